@@ -4,6 +4,7 @@ package harness
 // inputs are the configuration (topology, scripts) and the events.
 
 import (
+	"encoding/hex"
 	"fmt"
 	"sort"
 	"strconv"
@@ -116,11 +117,27 @@ func scriptSplitK(seed int64, pc ProcCfg, id RecID) int {
 // (or with a result kind the engine cannot deliver), so the record as a whole must
 // be dead-lettered rather than acknowledged as delivered.
 func (c *Config) expectedLeaves(D delivKey, dst string) (paths []string, rejected bool) {
-	cur := []string{""}
+	m, rej := c.expectedLeafStamps(D, dst)
+	for p := range m {
+		paths = append(paths, p)
+	}
+	sort.Strings(paths)
+	return paths, rej
+}
+
+// expectedLeafStamps: leaf path -> ids of the processors that must have handled it, in order.
+func (c *Config) expectedLeafStamps(D delivKey, dst string) (map[string][]string, bool) {
+	rejected := false
+	cur := map[string][]string{"": nil}
 	for _, pc := range c.chain(D.Src, dst) {
-		var next []string
-		for _, p := range cur {
+		next := map[string][]string{}
+		for p, st := range cur {
 			id := RecID{Src: D.Src, Idx: D.Idx, N: D.N, Path: p}
+			if !condHolds(c.Seed, pc.Cond, D.Src, D.Idx) {
+				next[p] = st // condition false: passes through untouched
+				continue
+			}
+			st2 := append(append([]string(nil), st...), pc.ID)
 			switch scriptVerdict(c.Seed, pc, id) {
 			case "error":
 				rejected = true
@@ -132,10 +149,10 @@ func (c *Config) expectedLeaves(D delivKey, dst string) (paths []string, rejecte
 				}
 				k := scriptSplitK(c.Seed, pc, id)
 				for j := 0; j < k; j++ {
-					next = append(next, fmt.Sprintf("%s/%d", p, j))
+					next[fmt.Sprintf("%s/%d", p, j)] = st2
 				}
 			default:
-				next = append(next, p)
+				next[p] = st2
 			}
 		}
 		cur = next
@@ -147,6 +164,18 @@ func (c *Config) expectedLeaves(D delivKey, dst string) (paths []string, rejecte
 func (o *Oracles) accepted(w *World, D delivKey) (bool, string) {
 	if _, ok := o.dlqOK[D]; ok {
 		return true, "dlq"
+	}
+	if w.cfg.Hostile {
+		// plugin replies are not scripted: judge by what was observed. Every leaf of D that
+		// reached a destination must be confirmed; a rejected or unconfirmed one needs the DLQ.
+		for lk := range o.written {
+			if lk.Src == D.Src && lk.Idx == D.Idx && lk.N == D.N {
+				if _, ok := o.confirmed[lk]; !ok {
+					return false, fmt.Sprintf("leaf %q written to %s is not confirmed", lk.Path, lk.Dst)
+				}
+			}
+		}
+		return true, "delivered-or-dropped-by-plugin"
 	}
 	for _, dc := range w.cfg.Dests {
 		paths, rejected := w.cfg.expectedLeaves(D, dc.ID)
@@ -200,6 +229,7 @@ func (o *Oracles) onCrash(w *World) { o.crashed = true }
 
 func (o *Oracles) onEvent(w *World, e *Event) {
 	hostile := w.cfg.Hostile
+	hostileSrc := w.cfg.HostileSrc
 	switch e.Kind {
 	case "SRC_OPEN":
 		if e.Err != "" {
@@ -246,7 +276,7 @@ func (o *Oracles) onEvent(w *World, e *Event) {
 		s := o.sess[sessKey(e.Ent, e.Sess)]
 		for i, id := range e.IDs {
 			// C04: k-th ack is the k-th emitted record of the session
-			if s != nil && !hostile {
+			if s != nil && !hostileSrc {
 				if s.acked >= len(s.emitted) {
 					w.violate("C04", "ack-beyond-emitted", fmt.Sprintf("source %s session %d got ack #%d (%s) but only %d records were emitted", e.Ent, e.Sess, s.acked+1, e.Pos[i], len(s.emitted)))
 				} else if s.emitted[s.acked] != id.Idx {
@@ -278,7 +308,7 @@ func (o *Oracles) onEvent(w *World, e *Event) {
 			}
 			// C02 (i): durable before told
 			di, set := o.durIdx[e.Ent], o.durSet[e.Ent]
-			if !set || di < id.Idx {
+			if (!set || di < id.Idx) && !hostileSrc {
 				have := "none"
 				if set {
 					have = strconv.Itoa(di)
@@ -287,33 +317,41 @@ func (o *Oracles) onEvent(w *World, e *Event) {
 			}
 		}
 	case "DST_WRITE":
-		for _, id := range e.IDs {
+		stamps := strings.Split(e.Note, ";")
+		for i, id := range e.IDs {
 			lk := leafKey{Dst: e.Ent, Src: id.Src, Idx: id.Idx, N: id.N, Path: id.Path}
-			if _, dup := o.written[lk]; dup && !hostile {
+			if _, dup := o.written[lk]; dup && !hostileSrc {
 				w.violate("C05", "duplicate-write-in-run", fmt.Sprintf("destination %s received %s twice for the same delivery", e.Ent, id))
 			}
 			o.written[lk] = e.Seq
 			// C05 order per (destination session, source)
 			k := sessKey(e.Ent, e.Sess) + "|" + id.Src
 			cur := [2]string{fmt.Sprintf("%09d", id.Idx), id.Path}
-			if last, ok := o.lastWrite[k]; ok && !hostile {
+			if last, ok := o.lastWrite[k]; ok && !hostileSrc {
 				if cur[0] < last[0] || (cur[0] == last[0] && !pathLess(last[1], cur[1])) {
 					w.violate("C05", "write-out-of-order", fmt.Sprintf("destination %s session %d: record %s of source %s written after %s/%s", e.Ent, e.Sess, id, id.Src, strings.TrimLeft(last[0], "0"), last[1]))
 				}
 			}
 			o.lastWrite[k] = cur
-			// C08/C13: exactly the expected leaf set
-			if !hostile && id.Idx >= 0 {
-				paths, rejected := w.cfg.expectedLeaves(delivKey{id.Src, id.Idx, id.N}, e.Ent)
-				found := false
-				for _, p := range paths {
-					if p == id.Path {
-						found = true
+			// C09: content and position of a written record belong to the same source record
+			if id.Idx >= 0 && i < len(e.Pos) {
+				if sys := w.srcs[id.Src]; sys != nil {
+					if pi, ok := sys.posIndex[unhex(e.Pos[i])]; ok && pi != id.Idx {
+						w.violate("C09", "result-misaligned", fmt.Sprintf("destination %s received the content of record %s under the position of record %d: a result was attached to the wrong record", e.Ent, id, pi))
 					}
 				}
-				_ = rejected
+			}
+			// C08/C13: exactly the expected leaf set, handled by exactly the expected processors
+			if !hostile && id.Idx >= 0 {
+				m, _ := w.cfg.expectedLeafStamps(delivKey{id.Src, id.Idx, id.N}, e.Ent)
+				want, found := m[id.Path]
 				if !found {
 					w.violate("C08", "unexpected-write", fmt.Sprintf("destination %s received %s which the scripted processor chain does not produce for it", e.Ent, id))
+				} else if i < len(stamps) {
+					got := stampProcs(stamps[i])
+					if strings.Join(got, ",") != strings.Join(want, ",") {
+						w.violate("C09", "wrong-processors-applied", fmt.Sprintf("record %s reached %s processed by %v, expected %v (conditions decide which processors touch a record; each exactly once)", id, e.Ent, got, want))
+					}
 				}
 			}
 		}
@@ -401,8 +439,8 @@ func pathLess(a, b string) bool {
 	as, bs := strings.Split(a, "/"), strings.Split(b, "/")
 	for i := 0; i < len(as) && i < len(bs); i++ {
 		if as[i] != bs[i] {
-			ai, _ := strconv.Atoi(as[i])
-			bi, _ := strconv.Atoi(bs[i])
+			ai, _ := strconv.Atoi(strings.TrimLeft(as[i], "h"))
+			bi, _ := strconv.Atoi(strings.TrimLeft(bs[i], "h"))
 			return ai < bi
 		}
 	}
@@ -428,7 +466,7 @@ func (o *Oracles) onDurableChange(w *World, e *Event) {
 			w.violate("C02", "durable-position-unknown", fmt.Sprintf("stored position of source %s is %q which the source never produced", sc.ID, pos))
 			continue
 		}
-		if o.durSet[sc.ID] && idx < o.durIdx[sc.ID] {
+		if o.durSet[sc.ID] && idx < o.durIdx[sc.ID] && !w.cfg.HostileSrc {
 			w.violate("C02", "durable-position-regressed", fmt.Sprintf("stored position of source %s went back from index %d to %d", sc.ID, o.durIdx[sc.ID], idx))
 		}
 		if !o.durSet[sc.ID] || idx != o.durIdx[sc.ID] {
@@ -591,5 +629,22 @@ func (o *Oracles) openSessions(w *World) []string {
 		}
 	}
 	sort.Strings(out)
+	return out
+}
+
+func unhex(h string) string {
+	b, _ := hex.DecodeString(h)
+	return string(b)
+}
+
+// stampProcs extracts the processor ids from a stamps string "p1:gen:rev,p2:gen:rev,".
+func stampProcs(s string) []string {
+	var out []string
+	for _, f := range strings.Split(s, ",") {
+		if f == "" {
+			continue
+		}
+		out = append(out, strings.SplitN(f, ":", 2)[0])
+	}
 	return out
 }
